@@ -338,8 +338,8 @@ theorem shapeSamplerNext_pinned : shapeSamplerNext = ["if s.i < s.k {",
   "s.i--",
   "s.first = false",
   "}",
-  "skip := math.Floor(math.Log(s.r.Float64()) / math.Log(1-s.w))",
-  "if math.IsInf(skip, 0) || math.IsNaN(skip) {",
+  "skip := math.Floor(math.Log(s.r.Float64()) / math.Log1p(-s.w))",
+  "if math.IsInf(skip, 0) || math.IsNaN(skip) || skip >= float64(math.MaxInt-s.i) {",
   "return math.MaxInt, 0",
   "}",
   "s.i += int(skip) + 1",
